@@ -71,6 +71,8 @@ type Trace struct {
 	Serving   bool    `json:"serving"`  // Serve had not returned by the end
 	NewConns  []int   `json:"newconns"` // per good peer (index 1..2): connections the server created for its address
 	Errs      int     `json:"errs"`
+	Announced int     `json:"announced"` // connections the server announced (OnNewConn)
+	Undone    int     `json:"undone"`    // ... whose done signal had not completed after every peer was gone and the server had stopped
 }
 
 // ---- servers -----------------------------------------------------------------------------------------------
@@ -85,12 +87,16 @@ type srv struct {
 	connID    map[any]int
 	newByAddr map[string]int
 	errs      int
+	dones     []<-chan struct{}
 }
 
 func (s *srv) onNew(cc any, raddr string) {
 	s.mu.Lock()
 	s.newByAddr[raddr]++
 	s.connID[cc] = len(s.connID) + 1
+	if d, ok := cc.(interface{ Done() <-chan struct{} }); ok {
+		s.dones = append(s.dones, d.Done())
+	}
 	s.mu.Unlock()
 }
 
@@ -485,6 +491,21 @@ func runServer(transport string, evs []EvIn) Trace {
 	case <-time.After(3 * time.Second):
 	}
 	tr.NewConns = tr.NewConns[:3]
+	// every peer is gone and the server has stopped: every connection it announced has been dismantled (a connection that
+	// is never dismantled keeps its socket and its goroutines: enough of them and the server stops accepting)
+	s.mu.Lock()
+	dones := append([]<-chan struct{}(nil), s.dones...)
+	s.mu.Unlock()
+	tr.Announced = len(dones)
+	deadline := time.After(2 * time.Second)
+	for _, d := range dones {
+		select {
+		case <-d:
+		case <-deadline:
+			tr.Undone++
+			deadline = time.After(time.Millisecond)
+		}
+	}
 	return tr
 }
 
